@@ -25,7 +25,8 @@ CHECKS = {
         'repeated-blank-tape infrul, recognisable by cycles = 0, implies the machine never halts), C02_norule_exact / C02_norule_eq_ref (no rule applied => the whole result record equals the rule-free '
         'simulator and hence the cell-by-cell reference, via C01), C02_prover_mono; machine-checked instance: the repo test machine halts at B3 with 2050 marks (C02_test_machine_halts, no hypothesis left). '
         'The property is decided on the explored programs: every undfnd/spnout verdict of the implementation is compared with a real run (slot, marks; steps when no rule was applied), every infrul with any '
-        'termination within the budget. KNOWN FINDING F14 (the property is false of the unchanged code): an inferred rule can be invalid at its last application '
+        'termination within the budget. KNOWN FINDING F14 (the property is false of the unchanged code; machine-checked: C02_verdict_refuted_F14, C02_F14_witness - a 23-state look-ahead machine for which the model of '
+        'run_prover reports a halt at slot (16,0) while the real machine halts at (14,0) after 79 steps): an inferred rule can be invalid at its last application '
         '(guard count > |diff| too weak); runs whose verdict rests on such an application (found by single-application replays at the end of every application) are printed as KNOWN-FINDING when the '
         'faithful model performs the same application, VIOLATION otherwise.',
    note=COMMON_NOTE + 'Theorems closed under the global context. u64 overflow panics of steps/rulapp (46+3 named machines at 10^4 cycles) are modelled and agree.',
@@ -39,7 +40,9 @@ CHECKS = {
         'run_prover whose estimated cost fits the budget is re-validated by the verified replay checker (others are counted as unreplayed, as the property quantifier allows); a replay that halts or spins out '
         'before reaching the claimed configuration, a block count < 1 or a changed colour is a VIOLATION with the application as replay. In addition the last three single applications of EVERY application '
         '(whatever its size) are replayed one at a time; an application whose predecessor is a real run of c cycles and which is itself not reached within 20c+20000 cycles is reported - as KNOWN-FINDING F14 '
-        '(witness: a 6-state machine whose rule L0+4,R0-2, inferred on even counts, is applied to an odd one) when the faithful model performs the same application, as VIOLATION otherwise. '
+        '(machine-checked witness C03_application_refuted_F14; further witnesses: 6-state machines whose rule L0+4,R0-2, inferred on even counts, is applied to an odd one) when the faithful model performs the '
+        'same application, as VIOLATION otherwise. Rules: every distinct (program, state, signature, rule) is submitted to the Coq-verified symbolic rule checker (C03_cover_sig_apply_sound), whose '
+        'certificate proves all its applications real for all counts (about 85% of the rules met); the stored rules (MinSig, edge flags) are compared code vs model through a second hook. '
         'The application trace itself is part of the model correspondence.',
    note=COMMON_NOTE + 'Theorems closed under the global context. Hook: machine::verif::take_apps (cfg bb_verif).',
    tech='Rocq/Coq conditional theorem + per-application verified replay (Coq-proved checker) + model/implementation correspondence on application traces'),
